@@ -404,7 +404,7 @@ class Runner:
 
         B = rng.randint(2, 3)
         mode = rng.choice(["both", "theta", "heights"])
-        if kind in ("skyride", "linear") and mode != "both":
+        if kind in ("skyride", "linear", "softgrid") and mode != "both":
             mode = "both" if kind == "skyride" or mode == "theta" else mode
         cases = []
         base = make_case(rng, kind, n, flat=False)
@@ -651,6 +651,48 @@ def soft_check(R: Runner, rng, n):
         R.violation("SoftPiecewiseConstantCoalescentGrid(temperature).log_prob:all-equal",
                     f"relaxed skygrid with all pieces equal to {float(th0)} gives {veq!r}; -(relaxed statistic)/theta - (n-1) log theta = {want!r}",
                     dict(case, thetas=[th0] * (gg + 1)), {"impl": veq, "want": want}, size=n)
+
+
+def soft_batched(R: Runner, rng, n):
+    """relaxed skygrid (temperature) on a batch whose rows are DIFFERENT genealogies (different sampling times): row s
+    must be the value of the unbatched evaluation of slice s"""
+    import torchtree.evolution.coalescent as C
+
+    B = rng.randint(2, 3)
+    # rows without tied sampling times: the relaxed model merges tied samples into one event of mass m (torch.unique),
+    # which a batch whose rows have DIFFERENT tie patterns cannot do row by row; only the Kingman branch
+    # (temperature=None, checked by `batched`) is independent of that merge
+    gens = []
+    for _ in range(B):
+        for _try in range(100):
+            g = G.genealogy(rng, n, q=4, tie_p=0.0, coal_tie_samp_p=0.0)
+            if len(set(g["samp"])) == n:
+                break
+        gens.append(g)
+    if any(len(set(g["samp"])) < n for g in gens):
+        return
+    gg = rng.randint(1, 4)
+    grid = G.grid_for(rng, gg, max(gens[0]["coal"]), [c for g in gens for c in g["coal"]], gens[0]["samp"], q=3)
+    rows = [[F(rng.randint(2, 48), 8) for _ in range(gg + 1)] for _ in range(B)]
+    tau = float(rng.choice([F(1, 8), F(1, 2), F(1)]))
+    case = {"kind": "softgrid", "samp": gens[0]["samp"], "coal": gens[0]["coal"], "grid": grid, "thetas": rows[0], "temperature": fr(F(tau))}
+    R.ck.case(key=("soft-batch", n, B, tuple(gens[0]["coal"]), tuple(grid)), bucket="soft-temperature/batched-different-genealogies")
+    try:
+        out = C.SoftPiecewiseConstantCoalescentGrid(T2(rows), T(grid), tau).log_prob(T2([g["samp"] + g["coal"] for g in gens]))
+        vals = [float(x) for x in out.reshape(-1).tolist()]
+        single = [float(C.SoftPiecewiseConstantCoalescentGrid(T(rows[s]), T(grid), tau).log_prob(T(gens[s]["samp"] + gens[s]["coal"])).reshape(-1)[0])
+                  for s in range(B)]
+    except Exception as e:
+        R.violation("SoftPiecewiseConstantCoalescentGrid(temperature).log_prob:batch-raises", f"{type(e).__name__}: {str(e)[:120]}", case, size=n)
+        return
+    for s in range(B):
+        if len(vals) != B or not close(vals[s], single[s], 1e-11, abs(single[s])):
+            R.violation("SoftPiecewiseConstantCoalescentGrid(temperature).log_prob:batch-row",
+                        f"relaxed skygrid on a batch of {B} different genealogies: row {s} = {vals[s] if len(vals) == B else vals!r}, the unbatched evaluation of that slice = {single[s]!r}",
+                        dict(case, samp=gens[s]["samp"], coal=gens[s]["coal"], thetas=rows[s]),
+                        {"batch": [enc_case({"kind": "softgrid", "samp": g["samp"], "coal": g["coal"], "grid": grid, "thetas": rows[i]}) for i, g in enumerate(gens)],
+                         "row": s}, size=n)
+            return
 
 
 # ----------------------------------------------------------------------------- from_json construction paths
@@ -1024,9 +1066,10 @@ def run(ck: Check):
                     run_case(R, rng, kind, n, deep=(n <= 12 or rep == 0))
         # batched
         for n in ([2, 3, 5, 8, 13, 30] if not ck.thorough() else [2, 3, 4, 5, 8, 13, 21, 30, 50]):
-            for kind in ("constant", "skyride", "skygrid", "exponential", "linear"):
+            for kind in ("constant", "skyride", "skygrid", "exponential", "linear", "softgrid"):
                 for _ in range(2 if not ck.thorough() else 5):
                     R.guard('batched', R.batched, rng, kind, n)
+            R.guard('soft_batched', soft_batched, R, rng, n)
         probe_ties(R, rng)
         for n in ([2, 3, 5, 8] if not ck.thorough() else [2, 3, 4, 5, 8, 13, 21]):
             for kind in ("constant", "exponential", "skyride", "skygrid", "linear"):
